@@ -237,3 +237,31 @@ func HarnessC19Unknown() {
 	verifAssert(RegisterFilter("upper", filters["upper"]) != nil, "registering a filter name twice must be refused")
 	verifAssert(RegisterTag("if", tags["if"].parser) != nil, "registering a tag name twice must be refused")
 }
+
+// (d) a filter binds tighter than any operator - also than a unary minus / not / binary operator on a literal
+func HarnessC19Binding() {
+	k := int(verifByte()) - 128
+	var src, want string
+	switch verifChoice(6) {
+	case 0:
+		src, want = "{{ -5|add:k }}", itoa(-(5 + k))
+	case 1:
+		src, want = "{{ 2 * 3|add:k }}", itoa(2*(3+k))
+	case 2:
+		src, want = "{{ 10 - 3|add:k }}", itoa(10-(3+k))
+	case 3:
+		src, want = "{{ -n|add:k }}", itoa(-(7 + k))
+	case 4:
+		src = "{% if not 0|add:k %}T{% else %}F{% endif %}"
+		want = "F"
+		if k == 0 {
+			want = "T"
+		}
+	default:
+		src, want = "{{ -\"ab\"|length }}", "-2"
+	}
+	verifObserve("src", src)
+	out, ok := render(src, Context{"k": k, "n": 7})
+	verifObserve("out", out)
+	verifAssert(ok && out == want, "a filter must bind tighter than the operator written in front of / next to its operand")
+}
